@@ -25,7 +25,7 @@ func runC05(p *core.Prog, r *core.Report) {
 	c05R1(p, r)
 	c05R2(p, r)
 	c05R3(p, r)
-	c05R6(p, r)
+	c05R6(p, r, "C05.R6")
 	afterFailureRule(p, r, "C05.R7")
 }
 
@@ -119,8 +119,7 @@ func afterFailureRule(p *core.Prog, r *core.Report, rule string) {
 // c05R6: the fall-back from a single request to a chunked transfer, and the resend of a request body
 // after a transient failure, rewind the source. Where the client itself uploads a blob it fetched
 // (BlobCopy), the value it hands to BlobPut must be able to seek.
-func c05R6(p *core.Prog, r *core.Report) {
-	const rule = "C05.R6"
+func c05R6(p *core.Prog, r *core.Report, rule string) {
 	r.Rule(rule, "the copy hands over a rewindable source: in the client's BlobCopy the reader given to BlobPut has a static type with a Seek method (a wrapper that only reads takes the fall-back to a chunked transfer and the resend after a transient failure away)", 1)
 	fn := p.Method(".", "RegClient", "BlobCopy")
 	if fn == nil {
